@@ -887,6 +887,10 @@ def o_account(v: View, stats=None):
             want = ("br.cancel",)
         elif sp == "nested_exh":
             want = ("br.failure", (s.out[2] if len(s.out) > 2 and s.out[2] else "UNKNOWN"))
+            if v.no_retry and len(recs) == 1 and recs[0][0] == "br.failure" and recs[0][1] == "UNKNOWN":
+                # no retry component: the property does not pin whether the nested error's last_class or the
+                # policy's own classification of the error object counts (C12 compares the entry points)
+                want = None
         else:
             want = None
     else:
